@@ -144,7 +144,11 @@ def handle (op : String) (args : List String) : Option String := do
       let fs ← floats? args
       match fs with
       | [a, b, c, d, e, f, ox, oy, oz, dx, dy, dz, mn, mx] =>
-        pure (boolStr (intersectsRayInRange (⟨⟨a, b, c⟩, ⟨d, e, f⟩⟩ : AABB Float) ⟨ox, oy, oz⟩ ⟨dx, dy, dz⟩ mn mx))
+        -- answered by BOTH the hand model (Model/Tree.lean) and the REGENERATED AABB.IntersectsRayInRange (Gen/Render.lean,
+        -- Props/C16Slab.lean): a disagreement at Float (zero direction components, the two readings of kEpsilon) shows as a diff
+        let hand := intersectsRayInRange (⟨⟨a, b, c⟩, ⟨d, e, f⟩⟩ : AABB Float) ⟨ox, oy, oz⟩ ⟨dx, dy, dz⟩ mn mx
+        let gen := PolyVerif.Gen.geometry.AABB.IntersectsRayInRange (⟨⟨a, b, c⟩, ⟨d, e, f⟩⟩ : AABB Float) ⟨⟨ox, oy, oz⟩, ⟨dx, dy, dz⟩⟩ mn mx
+        pure (if hand == gen then boolStr hand else "hand-model≠regenerated")
       | _ => none
   | "c16.oct.bounds" => do
       let (t, _) ← parseTree args
